@@ -27,6 +27,15 @@ theorem drive_bound {σ : Type} (Q : TextPass σ) (μ : Text → σ → Nat)
 theorem binary_search_bound {α : Type} (test : List α → Bool) (l : List α) :
     ∃ r, start test (startFuel l.length) l = some r := C06.completes test l
 
+/-- the gcda pass restarts its search after every accepted removal: at most `(n+1)·(2n²+4n+1) + 1` candidates -/
+theorem gcda_bound {α : Type} (test : List α → Bool) (l : List α) :
+    ∃ r, gcdaStart test (gcdaFuel l.length) l = some r := C06.gcda_completes test l
+
+/-- the ifs pass asks for every range twice (`#if 0`, `#if 1`): at most `2·(2n²+4n+1) + 2` candidates, for every test —
+    value-sensitive or not -/
+theorem ifs_bound {α : Type} (test : List α → Bool → Bool) (l : List α) :
+    ∃ r, ifsStart test (ifsFuel l.length) l = some r := C06.ifs_completes test l
+
 /-- balanced (all shipped arguments): at most `2·|s| + 2` candidates for **every** accept/reject history.  The measure is
     `2·|s| + 1 − start of the current match`: `advance` moves the start right, an accepted candidate is strictly shorter
     (every generated recipe shrinks a span of ≥ 2 characters or leaves the text unchanged — `balanced_recipes_shrink`,
